@@ -250,10 +250,13 @@ def decide(prop, tier, seed):
     fn_report = []
     samples = []
     smt_ms = 0
+    outside = []   # changed code that is outside the verifier's reach (dialect, trusted shims): decided only by a failing input
     trusted_now = trusted_pins()
     for k, v in trusted_now.items():
         if base["trusted"].get(k) != v:
             undecided.append("trusted base changed: %s (real body differs from the audited one the shim stands for)" % k)
+            outside.append(dict(obligation="trusted/%s" % k, reason="the body of a function that the environment only assumes (hash-pinned shim) changed", changed=[k],
+                                unit="trusted", flavour=k.split("/")[0], rendered="trusted base changed: %s" % k))
     rules = {}
     for (uname, fl), u in sorted(results.items()):
         key = "%s/%s" % (uname, fl)
@@ -264,6 +267,12 @@ def decide(prop, tier, seed):
                 obligations += 1
             else:
                 undecided.append("%s: %s" % (key, u["error"]))
+                chg = []
+                if u.get("gen") is not None:
+                    chg = [f["id"] for f in u["gen"].fns if base["functions"].get("%s/%s" % (key, f["id"])) not in (None, f["hash"])]
+                if chg or u.get("gen") is None:
+                    outside.append(dict(obligation="%s/%s" % (key, chg[0] if chg else "extraction"), reason="the changed text cannot be brought before the verifier: %s" % u["error"].split("\n")[0][:300],
+                                        changed=chg, unit=uname, flavour=fl, rendered=u["error"]))
             continue
         smt_ms += u["res"].get("smt_ms") or 0
         g = u["gen"]
@@ -339,6 +348,21 @@ def decide(prop, tier, seed):
             if (prop in f["props"] or prop == "C15") and len(samples) < 3:
                 txt = "\n".join(g.lines[f["gen_start"] - 1:f["gen_end"]])
                 samples.append(dict(obligation="%s/%s" % (key, f["id"]), generated_text=txt[:6000]))
+    if outside and not violations:
+        # no obligation could be generated for the changed text. That is "undecided" -- unless a failing input can be shown
+        # on the real code, in which case the property is violated by the tree under check whatever the verifier can read.
+        w = None
+        try:
+            from vx import witness
+            w = witness.run_oracles(prop, REPO)
+        except Exception:
+            w = None
+        if w:
+            o = outside[0]
+            obligations += 1
+            violations.append(dict(obligation=o["obligation"], clause="not verifiable after the change (%s)" % o["reason"], fn=None,
+                                   diags=[dict(rendered=x["rendered"], message=x["reason"]) for x in outside], changed=o["changed"], path="",
+                                   unit=o["unit"], flavour=o["flavour"], hints_lost=["outside the verifier's reach"]))
     extra = {}
     if prop == "C20":
         sc = scan_c20()
